@@ -100,29 +100,6 @@ def expected_sequence(spec):
     return seq
 
 
-class Features:
-    """Filter-relevant features of one read, looked up only when the reference needs them (same laziness as LazyRec)."""
-
-    def __init__(self, t, c, e, matched):
-        self.t, self.c, self.e, self.matched = t, c, e, matched
-
-    @property
-    def length(self):
-        return pc.TEXT_FEATURES[self.t][0]
-
-    @property
-    def n_count(self):
-        return pc.TEXT_FEATURES[self.t][1]
-
-    @property
-    def is_y(self):
-        return pc.NAME_IS_Y[self.c]
-
-    @property
-    def ee(self):
-        return pc.EE_VALUES[self.e] if self.length > 0 else 0.0
-
-
 def applies(spec, kind, f1, f2, thr):
     """Does the filter `kind` apply to the read (pair)?"""
     m1, m2, M1, M2 = thr
@@ -153,7 +130,7 @@ def applies(spec, kind, f1, f2, thr):
     if kind == "too_short":
         on1, on2 = spec.lengths("m")
         if ":" not in spec.m:
-            m2 = m1
+            m2 = m1                 # '-m LEN': the same minimum for both reads
     elif kind == "too_long":
         on1, on2 = spec.lengths("M")
         if ":" not in spec.M:
@@ -172,28 +149,28 @@ def applies(spec, kind, f1, f2, thr):
     return one(f1, m1, M1)
 
 
-def sink_destination(spec, mt1, name1, mt2, name2):
+def sink_destination(spec, f1, f2):
     """Paths of the final output the read (pair) belongs to, or None when the sink drops it."""
     if spec.out == "stdout":
         return ("-",)
     if spec.out in ("files", "interleaved"):
         return spec.paths("out")
     if spec.out == "demux":                 # file of the adapter found in R1; C15 looks at this in depth
-        if mt1:
-            return spec.paths(name1)
+        if f1.matched:
+            return spec.paths(f1.adapter_name)
         if spec.last == "discard_untrimmed":
             return None
         if spec.last == "untrimmed_output":
             return spec.paths("untrimmed")
         return spec.paths("unknown")
     if spec.out == "combinatorial":
-        if spec.last == "discard_untrimmed" and not (mt1 and mt2):
+        if spec.last == "discard_untrimmed" and not (f1.matched and f2.matched):
             return None
-        return spec.paths("%s-%s" % (name1 if mt1 else "unknown", name2 if mt2 else "unknown"))
+        return spec.paths("%s-%s" % (f1.adapter_name if f1.matched else "unknown", f2.adapter_name if f2.matched else "unknown"))
     raise AssertionError(spec.out)
 
 
-def _verdict(spec, built, records, f1, f2, thr, names):
+def _verdict(spec, built, records, f1, f2, thr):
     """Compare what the real pipeline did with the reference."""
     seq = expected_sequence(spec)
     if len(seq) != len(built.steps):
@@ -207,7 +184,7 @@ def _verdict(spec, built, records, f1, f2, thr, names):
             break
     if pos is None:
         pos = len(seq) - 1
-        dest = sink_destination(spec, f1.matched, names[0], f2.matched if f2 else False, names[1])
+        dest = sink_destination(spec, f1, f2)
     else:
         stem = seq[pos][1]
         dest = spec.paths(stem) if stem is not None else None
@@ -232,45 +209,60 @@ def _verdict(spec, built, records, f1, f2, thr, names):
 
 
 # ---------------------------------------------------------------------------------- conditions
+def _spec():
+    return OPTION_SETS[_PARAM.get("set", 0)]
+
+
+def _hi(k):
+    """Largest row number of feature table k ('t' text, 'c' header, 'e' expected errors) for the current option set."""
+    return len(pc.tables_for(_spec())[k]) - 1
+
+
 def check_single(t: int, c: int, e: int, mt: bool, a: int, m: int, M: int) -> bool:
     """
-    pre: 0 <= t <= 9 and 0 <= c <= 4 and 0 <= e <= 3 and 0 <= a <= 1
+    pre: 0 <= t <= _hi("t") and 0 <= c <= _hi("c") and 0 <= e <= _hi("e") and 0 <= a <= 1
     pre: -1 <= m <= 4 and -1 <= M <= 4
     post: _
     """
-    spec = OPTION_SETS[_PARAM.get("set", 0)]
+    spec = _spec()
+    tables = pc.tables_for(spec)
     built = pc.build(spec.argv())
-    inject(built, spec, m, m, M, M)
+    if _PARAM.get("symbolic_lengths", True):
+        inject(built, spec, m, m, M, M)
+    else:
+        m, M = (spec.length_values("m")[0] if spec.m else None), (spec.length_values("M")[0] if spec.M else None)
     names = spec.names(1)
-    mt = mt and bool(names)
     name = (names[a] if spec.out == "demux" else names[0]) if names else None
-    read = pc.make_read(t, c, e)
-    n, bp1, bp2 = built.run([read], pc.SetMatches1(mt, name))
-    if n != 1 or bp1 != len(read) or bp2 is not None:
+    f = pc.Features(t, c, e, mt if names else False, name, tables)
+    read = pc.LazyRec(f)
+    n, bp1, bp2 = built.run([read], pc.MatchSetter1(f))
+    if n != 1 or bp1 != f.length or bp2 is not None:
         return False
-    return _verdict(spec, built, (read,), Features(t, c, e, mt), None, (m, m, M, M), (name, None))
+    return _verdict(spec, built, (read,), f, None, (m, m, M, M))
 
 
 def check_paired(t1: int, t2: int, c1: int, c2: int, e1: int, e2: int, mt1: bool, mt2: bool, m1: int, m2: int, M1: int, M2: int) -> bool:
     """
-    pre: 0 <= t1 <= 9 and 0 <= t2 <= 9 and 0 <= c1 <= 4 and 0 <= c2 <= 4 and 0 <= e1 <= 3 and 0 <= e2 <= 3
+    pre: 0 <= t1 <= _hi("t") and 0 <= t2 <= _hi("t") and 0 <= c1 <= _hi("c") and 0 <= c2 <= _hi("c") and 0 <= e1 <= _hi("e") and 0 <= e2 <= _hi("e")
     pre: -1 <= m1 <= 4 and -1 <= m2 <= 4 and -1 <= M1 <= 4 and -1 <= M2 <= 4
     post: _
     """
-    spec = OPTION_SETS[_PARAM.get("set", 0)]
+    spec = _spec()
+    tables = pc.tables_for(spec)
     built = pc.build(spec.argv())
-    inject(built, spec, m1, m2, M1, M2)
+    if _PARAM.get("symbolic_lengths", True):
+        inject(built, spec, m1, m2, M1, M2)
+    else:
+        m1, m2 = spec.length_values("m") if spec.m else (None, None)
+        M1, M2 = spec.length_values("M") if spec.M else (None, None)
     n1, n2 = spec.names(1), spec.names(2)
-    mt1 = mt1 and bool(n1)
-    mt2 = mt2 and bool(n2)
-    name1 = n1[0] if n1 else None
-    name2 = n2[-1] if n2 else None
-    r1 = pc.make_read(t1, c1, e1)
-    r2 = pc.make_read(t2, c2, e2)
-    n, bp1, bp2 = built.run([(r1, r2)], pc.SetMatches2(mt1, name1, mt2, name2))
-    if n != 1 or bp1 != len(r1) or bp2 != len(r2):
+    f1 = pc.Features(t1, c1, e1, mt1 if n1 else False, n1[0] if n1 else None, tables)
+    f2 = pc.Features(t2, c2, e2, mt2 if n2 else False, n2[-1] if n2 else None, tables)
+    r1, r2 = pc.LazyRec(f1), pc.LazyRec(f2)
+    n, bp1, bp2 = built.run([(r1, r2)], pc.MatchSetter2(f1, f2))
+    if n != 1 or bp1 != f1.length or bp2 != f2.length:
         return False
-    return _verdict(spec, built, (r1, r2), Features(t1, c1, e1, mt1), Features(t2, c2, e2, mt2), (m1, m2, M1, M2), (name1, name2))
+    return _verdict(spec, built, (r1, r2), f1, f2, (m1, m2, M1, M2))
 
 
 # -- each predicate on its own (documented criterion, boundary values inside) ------------------------------------
@@ -284,8 +276,9 @@ def check_pred_length(t: int, m: int) -> bool:
     pre: 0 <= t <= 9 and -1 <= m <= 4
     post: _
     """
-    read = pc.make_read(t, 0, 0)
-    length = pc.TEXT_FEATURES[t][0]
+    f = pc.Features(t, 0, 0, False, None)
+    read = pc.LazyRec(f)
+    length = f.length
     return TooShort(m).test(read, None) == (length < m) and TooLong(m).test(read, None) == (length > m)
 
 
@@ -309,8 +302,8 @@ def check_pred_ee(t: int, e: int, x: int, y: int) -> bool:
     pre: 0 <= t <= 9 and 0 <= e <= 3 and 0 <= x <= 6 and 0 <= y <= 5
     post: _
     """
-    read = pc.make_read(t, 0, e)
-    f = Features(t, 0, e, False)
+    f = pc.Features(t, 0, e, False, None)
+    read = pc.LazyRec(f)
     return (TooManyExpectedErrors(EE_CUTOFFS[x]).test(read, None) == crit_max_ee(f.ee, EE_CUTOFFS[x])
             and TooHighAverageErrorRate(AER_CUTOFFS[y]).test(read, None) == crit_max_aer(f.length, f.ee, AER_CUTOFFS[y]))
 
@@ -320,76 +313,90 @@ def check_pred_flags(c: int, mt: bool) -> bool:
     pre: 0 <= c <= 4
     post: _
     """
-    read = pc.make_read(3, c, 0)
+    f = pc.Features(3, c, 0, mt, "a1")
+    read = pc.LazyRec(f)
 
     class _Info:
-        matches = [pc.DummyMatch("a1")] if mt else []
-    return (CasavaFiltered().test(read, _Info) == pc.NAME_IS_Y[c] and IsTrimmed().test(read, _Info) == mt
+        matches = f.matches
+    return (CasavaFiltered().test(read, _Info) == f.is_y and IsTrimmed().test(read, _Info) == mt
             and IsUntrimmed().test(read, _Info) == (not mt))
 
 
 # ---------------------------------------------------------------------------------- catalogue
 def _catalogue():
+    """[(Spec, extra condition parameters)]"""
     S = []
+
+    def add(spec, **extra):
+        S.append((spec, extra))
     # single-end
-    S.append(Spec())
-    S.append(Spec(out="stdout", m="2"))
+    add(Spec())
+    add(Spec(out="stdout", m="2"))
     for ts in (False, True):
-        S.append(Spec(m="2", ts_out=ts))
-        S.append(Spec(M="3", tl_out=ts))
-        S.append(Spec(m="2", ts_out=ts, M="3", tl_out=not ts))
+        add(Spec(m="2", ts_out=ts))
+        add(Spec(M="3", tl_out=ts))
+        add(Spec(m="2", ts_out=ts, M="3", tl_out=not ts))
     for v in (0.0, 0.5, 1.0, 2.0):
-        S.append(Spec(max_n=v))
-    S.append(Spec(max_ee=1.0))
-    S.append(Spec(max_aer=0.5))
-    S.append(Spec(casava=True))
+        add(Spec(max_n=v))
+    add(Spec(max_ee=1.0))
+    add(Spec(max_aer=0.5))
+    add(Spec(max_ee=1.0, max_aer=0.5, m="1"))
+    add(Spec(casava=True))
     for last in ("discard_trimmed", "discard_untrimmed", "untrimmed_output"):
-        S.append(Spec(adapters="1", last=last))
-        S.append(Spec(adapters="1", m="2", ts_out=True, M="3", tl_out=True, max_n=1.0, max_ee=1.0, max_aer=0.5, casava=True, last=last))
-        S.append(Spec(adapters="1", m="2", M="3", max_n=1.0, max_ee=1.0, max_aer=0.5, casava=True, last=last, aux=(last == "untrimmed_output")))
+        add(Spec(adapters="1", last=last))
+        add(Spec(adapters="1", m="2", ts_out=True, M="3", tl_out=True, max_n=1.0, max_ee=1.0, max_aer=0.5, casava=True, last=last))
+        add(Spec(adapters="1", m="2", M="3", max_n=0.5, max_ee=1.0, max_aer=0.5, casava=True, last=last), symbolic_lengths=False)
+    add(Spec(adapters="1", m="2", casava=True, last="untrimmed_output", aux=True))
     for last in (None, "discard_untrimmed", "untrimmed_output"):
-        S.append(Spec(adapters="1", out="demux", last=last, m="2", ts_out=True, max_n=1.0))
+        add(Spec(adapters="1", out="demux", last=last, m="2", ts_out=True, max_n=1.0))
     # paired-end
-    S.append(Spec(paired=True))
-    S.append(Spec(paired=True, out="interleaved", m="2", ts_out=True, M="3"))
+    add(Spec(paired=True))
+    add(Spec(paired=True, out="interleaved", m="2", ts_out=True, M="3"))
     for pf in (None, "both", "first"):
         for form in ("2", "2:3"):
-            S.append(Spec(paired=True, pair_filter=pf, m=form, ts_out=True, M=form, tl_out=(pf is None)))
-        S.append(Spec(paired=True, pair_filter=pf, max_n=(0.5 if pf == "both" else 1.0), max_ee=1.0))
-        S.append(Spec(paired=True, pair_filter=pf, max_aer=0.5, casava=True))
-        S.append(Spec(paired=True, pair_filter=pf, adapters="12", last="discard_trimmed"))
-        S.append(Spec(paired=True, pair_filter=pf, adapters="12", last="discard_untrimmed", casava=True))
-        S.append(Spec(paired=True, pair_filter=pf, adapters="12", last="untrimmed_output", m="2"))
+            add(Spec(paired=True, pair_filter=pf, m=form, ts_out=True, M=form, tl_out=(pf is None)))
+        add(Spec(paired=True, pair_filter=pf, max_n=(0.5 if pf == "both" else 1.0)))
+        add(Spec(paired=True, pair_filter=pf, max_ee=1.0))
+        add(Spec(paired=True, pair_filter=pf, max_aer=0.5))
+        add(Spec(paired=True, pair_filter=pf, casava=True, max_n=2.0))
+        add(Spec(paired=True, pair_filter=pf, adapters="12", last="discard_trimmed"))
+        add(Spec(paired=True, pair_filter=pf, adapters="12", last="discard_untrimmed", casava=True))
+        add(Spec(paired=True, pair_filter=pf, adapters="12", last="untrimmed_output", m="2"))
     for form in ("2:", ":2"):
-        S.append(Spec(paired=True, m=form, ts_out=True, M=form))
-        S.append(Spec(paired=True, pair_filter="both", m=form, M=form, tl_out=True))
+        add(Spec(paired=True, m=form, ts_out=True, M=form))
+        add(Spec(paired=True, pair_filter="both", m=form, M=form, tl_out=True))
     for ad in ("1", "2"):
         for pf in (None, "any", "first"):
-            S.append(Spec(paired=True, pair_filter=pf, adapters=ad, last="discard_untrimmed"))
-        S.append(Spec(paired=True, adapters=ad, last="untrimmed_output", M="3", tl_out=True))
-        S.append(Spec(paired=True, adapters=ad, last="discard_trimmed"))
+            add(Spec(paired=True, pair_filter=pf, adapters=ad, last="discard_untrimmed"))
+        add(Spec(paired=True, adapters=ad, last="untrimmed_output", M="3", tl_out=True))
+        add(Spec(paired=True, adapters=ad, last="discard_trimmed"))
     for pf in (None, "both"):
         for last in ("discard_trimmed", "discard_untrimmed", "untrimmed_output"):
-            S.append(Spec(paired=True, pair_filter=pf, adapters="12", m="2:3", ts_out=True, M="3", max_n=1.0, max_ee=1.0, max_aer=0.5, casava=True, last=last))
-    S.append(Spec(paired=True, adapters="12", out="demux", m="2"))
-    S.append(Spec(paired=True, adapters="12", out="demux", last="untrimmed_output", casava=True))
-    S.append(Spec(paired=True, adapters="12", out="demux", last="discard_untrimmed", M="3", tl_out=True))
-    S.append(Spec(paired=True, adapters="12", out="combinatorial", m="2", max_n=1.0))
-    S.append(Spec(paired=True, adapters="12", out="combinatorial", last="discard_untrimmed", m="2", ts_out=True))
+            add(Spec(paired=True, pair_filter=pf, adapters="12", m="2:3", ts_out=True, M="3", max_n=1.0, max_ee=1.0, max_aer=0.5, casava=True, last=last),
+                symbolic_lengths=False)
+    add(Spec(paired=True, adapters="12", out="demux", m="2"))
+    add(Spec(paired=True, adapters="12", out="demux", last="untrimmed_output", casava=True))
+    add(Spec(paired=True, adapters="12", out="demux", last="discard_untrimmed", M="3", tl_out=True))
+    add(Spec(paired=True, adapters="12", out="combinatorial", m="2", max_n=1.0))
+    add(Spec(paired=True, adapters="12", out="combinatorial", last="discard_untrimmed", m="2", ts_out=True))
+    add(Spec(paired=True, adapters="1", m="2", last="discard_untrimmed", aux=True))
     return S
 
 
-OPTION_SETS = _catalogue()
+_CAT = _catalogue()
+OPTION_SETS = [s for s, _ in _CAT]
 
 CONDITIONS = [
     {"name": "pred/length", "fn": "check_pred_length", "timeout": 120},
-    {"name": "pred/too_many_n", "fn": "check_pred_n", "timeout": 300},
-    {"name": "pred/expected_errors", "fn": "check_pred_ee", "timeout": 120},
+    {"name": "pred/too_many_n", "fn": "check_pred_n", "timeout": 600},
+    {"name": "pred/expected_errors", "fn": "check_pred_ee", "timeout": 300},
     {"name": "pred/casava_trimmed_untrimmed", "fn": "check_pred_flags", "timeout": 120},
 ]
-for _i, _s in enumerate(OPTION_SETS):
-    CONDITIONS.append({"name": "set%02d/%s" % (_i, _s.label()), "fn": "check_paired" if _s.paired else "check_single",
-                       "param": {"set": _i}, "timeout": 600})
+for _i, (_s, _extra) in enumerate(_CAT):
+    _p = {"set": _i}
+    _p.update(_extra)
+    CONDITIONS.append({"name": "set%02d/%s%s" % (_i, _s.label(), "" if _extra.get("symbolic_lengths", True) else " [fixed -m/-M]"),
+                       "fn": "check_paired" if _s.paired else "check_single", "param": _p, "timeout": 900})
 
 
 def describe():
